@@ -53,7 +53,7 @@ def role_swaps(ctx, funcs):
             target = None
             if isinstance(node.func, ast.Name):
                 t = ctx.repo.global_term(m, node.func.id)
-                target = t[1]
+                target = t[1] if t[0] == 'g' else None
             elif isinstance(node.func, ast.Attribute) and isinstance(node.func.value, ast.Name) and node.func.value.id == 'self' \
                     and fi.cls is not None:
                 target = fi.cls + '.' + node.func.attr
